@@ -59,6 +59,12 @@ func c07Monitor(st *engine.Step) {
 				Detail: fmt.Sprintf("a %s request that did not ask to be remembered (and presented no cookie) was answered with a remember cookie", tag.Kind)})
 		}
 	}
+	// (binding) the cookie a login hands out is bound to the account that logged in
+	if c2 != "" && c2 != c && tag.Kind == "login" && tag.RM && o.UIDAfter() == tag.PID {
+		if sec := post.Truth.ByVal("rm", c2); sec != nil && sec.Owner != tag.PID {
+			st.Report(engine.Violation{Rule: "C07/cookie-bound-to-another-account", Detail: fmt.Sprintf("the remember cookie issued by the login of %q is stored for %q", tag.PID, sec.Owner)})
+		}
+	}
 	if !probeKinds[tag.Kind] {
 		// (upgrade) a completed full login clears the half-auth mark
 		if (tag.Kind == "login" || tag.Kind == "oauth_cb") && accepted(o) && o.UIDAfter() != "" {
@@ -260,6 +266,8 @@ func c07Scenarios(tier string) []engine.Scenario {
 					return r
 				}, ""))
 			}
+			// the bystander logs in, asking to be remembered, on the browser that may hold a session or cookie of the other account
+			a = append(a, flows.A("login(B1,bystander,pw:cur,rm=true)", func(s *world.Stack, _ *world.World) world.Req { return flows.Login(s, "B1", c07Bystander, P2, true) }, ""))
 			a = append(a, flows.A("login(B2,bystander,pw:cur,rm=true)", func(s *world.Stack, _ *world.World) world.Req { return flows.Login(s, "B2", c07Bystander, P2, true) }, ""))
 			for _, b := range bothBrowsers {
 				a = append(a, flows.Restart(b))
